@@ -50,7 +50,7 @@ def run(tier="quick", seed=0, use_cache=True):
     res.floor("allocation result sites (OO)", oo["alloc_sites"], 70)
     res.floor("BTree_Realloc sites (OO)", oo["realloc_sites"], 5)
     res.floor("free(member) sites (OO)", oo["free_member_sites"], 5)
-    res.floor("raw allocator calls (OO)", oo["raw_sites"], 9)
+    res.floor("raw allocator calls (OO)", oo["raw_sites"], 2)
     res.floor("translation units", len(out), 22)
     res.count("ALLOC-CHECKED", tot["alloc_sites"])
     res.count("REALLOC-DISC", tot["realloc_sites"])
